@@ -231,7 +231,7 @@ const ringModelHasAbandon = true
 
 func checkC07(c *Ctx) {
 	r := c.Rng
-	c.Ev.Coverage.Rule = "documents above the 8 KiB threshold needing 2..200 index buffers (valid, stage-1-invalid and stage-2-invalid at a chosen point, big objects truncated inside a member, maximally dense documents whose last index buffer is over-full because the padded tail call added to it) parsed (every second run into the ParsedJson an earlier run returned, whose own index channel and capacity are then the ones replayed) under forced schedules through the verif event hooks: free running, lagging consumer (producer driven into the full channel), lagging producer (consumer blocked in receive), random stop/go at every event, consumer holding each just-received buffer until the producer is 15 buffers ahead; GOMAXPROCS 1/2/4/16. Each recorded event trace is linearised and replayed through the Coq transition system (extracted Ring.run): every event must be enabled, every visited state Safe, consumed in order; the outcome must equal the schedule-free model/spec outcome. non-trivial = trace with >= 2 buffers accepted by the model; distinct = by (document, mode, trace)"
+	c.Ev.Coverage.Rule = "documents above the 8 KiB threshold needing 2..200 index buffers (valid, stage-1-invalid and stage-2-invalid at a chosen point, big objects truncated inside a member, maximally dense documents whose last index buffer is over-full because the padded tail call added to it) parsed (every second run into the ParsedJson an earlier run returned, whose own index channel and capacity are then the ones replayed) under forced schedules through the verif event hooks: free running, lagging consumer (producer driven into the full channel), lagging producer (consumer blocked in receive), random stop/go at every event, consumer holding each just-received buffer until the producer is 15 buffers ahead; GOMAXPROCS 1/2/4/16. Each recorded event trace is linearised and replayed through the Coq transition system (extracted Ring.run): every event must be enabled, every visited state Safe, consumed in order; the outcome must equal the schedule-free model/spec outcome. plus: parsing into a clone leaves the original untouched, and an original and its clone are parsed into at the same time (> 16 buffers each). non-trivial = trace with >= 2 buffers accepted by the model; distinct = by (document, mode, trace)"
 	capN, slots := 14, 16
 	if pj, err := simdjson.Parse([]byte(`{"a":1}`), nil); err == nil {
 		cc, _, _ := simdjson.VerifChanState(pj)
@@ -434,6 +434,70 @@ func checkC07(c *Ctx) {
 		}
 	}
 	c.ringRefutationProbe(slots, capN)
+	c.c07ClonesDoNotShareTheRing(r)
+}
+
+// c07ClonesDoNotShareTheRing: a clone is an independent object — parsing into the clone must not
+// touch the original, and the original and its clone can be parsed into at the same time
+// (documents above 8 KiB needing more buffers than the ring has slots): each outcome and
+// document is the one its own content dictates.
+func (c *Ctx) c07ClonesDoNotShareTheRing(r *Rng) {
+	for round := 0; round < c.N(6, 40); round++ {
+		docA := bigDoc(r, 2+r.Intn(3), 0)
+		a := implParse(docA, false, true, nil)
+		if a.Err {
+			continue
+		}
+		wantA, _ := dumpDoc(a.PJ)
+		cl := a.PJ.Clone(nil)
+		docB, docC := bigDoc(r, 18+r.Intn(8), 0), bigDoc(r, 18+r.Intn(8), 0)
+		wb, wc := implParse(docB, false, true, nil), implParse(docC, false, true, nil)
+		if wb.Err || wc.Err {
+			continue
+		}
+		wantB, _ := dumpDoc(wb.PJ)
+		wantC, _ := dumpDoc(wc.PJ)
+		info := map[string]interface{}{"round": round, "doc_a_len": len(docA), "doc_b_len": len(docB), "doc_c_len": len(docC)}
+		c.Ev.Count("clone-then-parse", []byte(fmt.Sprint(round)), true)
+		// sequential: parse into the clone, the original is untouched
+		ob := implParse(docB, false, true, cl)
+		if ob.Err {
+			c.Violate("outcome", "a valid document parsed into a clone of an earlier result was rejected", "clone-parse-outcome", info)
+			return
+		}
+		if d, _ := dumpDoc(a.PJ); d != wantA {
+			c.Violate("outcome", "parsing into a clone changed the original document", "clone-parse-original", info)
+			return
+		}
+		if d, _ := dumpDoc(ob.PJ); d != wantB {
+			c.Violate("outcome-doc", "a document parsed into a clone differs from the same document parsed afresh", "clone-parse-doc", info)
+			return
+		}
+		// concurrent: original and a fresh clone parsed into at the same time
+		cl2 := a.PJ.Clone(nil)
+		var o1, o2 ParseOut
+		done := make(chan struct{}, 2)
+		go func() { o1 = implParse(docB, false, true, a.PJ); done <- struct{}{} }()
+		go func() { o2 = implParse(docC, false, true, cl2); done <- struct{}{} }()
+		for k := 0; k < 2; k++ {
+			select {
+			case <-done:
+			case <-time.After(180 * time.Second):
+				c.Violate("deadlock", "parsing into an original and into its clone at the same time did not return within 180 s", "clone-parse-hang", info)
+				return
+			}
+		}
+		if o1.Err || o2.Err {
+			c.Violate("outcome", "a valid document was rejected when an original and its clone were parsed into at the same time", "clone-parse-concurrent-outcome", info)
+			return
+		}
+		d1, _ := dumpDoc(o1.PJ)
+		d2, _ := dumpDoc(o2.PJ)
+		if d1 != wantB || d2 != wantC {
+			c.Violate("outcome-doc", "documents parsed into an original and its clone at the same time differ from what their content dictates", "clone-parse-concurrent-doc", info)
+			return
+		}
+	}
 }
 
 // ringRefutationProbe: if the source's constants no longer satisfy CAP+2 <= S
